@@ -96,8 +96,8 @@ func (e *Explorer) Explore(run RunFunc) {
 				return
 			}
 		}
-		if ex.Outcome == vsched.Diverged {
-			continue
+		if ex.Outcome == vsched.Diverged || ex.Outcome == vsched.StepLimit {
+			continue // (a spinning execution has tens of thousands of points: its deviations are not worth exploring)
 		}
 		// children: deviate at every point after the prefix
 		var kids []node
